@@ -58,7 +58,7 @@ class FibRun:
         self.sess.__enter__()
         self.loop = self.sess.loop
         self.t0 = self.loop.time()
-        self.app, self.face = new_app(front)
+        self.app, self.face = new_app(front, debug_log=True)
         self.face.running = False
         self.main = self.sess.spawn(self.app.main_loop())
         self.loop.settle()
@@ -80,6 +80,7 @@ class FibRun:
             self.app.int_validator = self.validator()
 
     def close(self):
+        self.app._verif_restore_log()
         self.sess.__exit__(None, None, None)
 
     def tick(self):
